@@ -604,6 +604,15 @@ fn damage_logs(dir: &Path, rng: &mut Rng) -> String {
 	let p = rng.pick(&nonempty).clone();
 	let mut data = std::fs::read(&p).unwrap();
 	let name = p.file_name().unwrap().to_string_lossy().to_string();
+	// (F26) one image in twelve: a CRAFTED first record - the chunk index of its first InsertIndex action is moved
+	// beyond the index table (between the number of chunks and the number of entries, or far beyond) and the
+	// checksum is recomputed, so only the validation of the replay can reject it
+	if rng.chance(1, 12) {
+		if let Some(d) = craft_chunk_index(&mut data, rng) {
+			std::fs::write(&p, &data).unwrap();
+			return format!("{name}: crafted {d}")
+		}
+	}
 	match rng.below(9) {
 		0 => {
 			let n = rng.below(data.len() as u64) as usize;
@@ -658,6 +667,74 @@ fn damage_logs(dir: &Path, rng: &mut Rng) -> String {
 			format!("{name} cut to a sub-header length {}", data.len())
 		},
 	}
+}
+
+/// patch the chunk index of the first InsertIndex action of the first record and recompute the record's CRC-32
+fn craft_chunk_index(b: &mut Vec<u8>, rng: &mut Rng) -> Option<String> {
+	if b.len() < 10 || b[0] != 1 {
+		return None
+	}
+	let mut q = 9usize;
+	let mut pos: Option<(usize, u32)> = None;
+	loop {
+		if q >= b.len() {
+			return None
+		}
+		let op = b[q];
+		q += 1;
+		match op {
+			2 | 6 => {
+				if q + 18 > b.len() {
+					return None
+				}
+				if op == 2 && pos.is_none() {
+					pos = Some((q + 2, b[q] as u32));
+				}
+				let m = u64::from_le_bytes(b[q + 10..q + 18].try_into().unwrap());
+				q += 18 + m.count_ones() as usize * if op == 2 { 8 } else { 16 };
+			},
+			3 => {
+				if q + 12 > b.len() {
+					return None
+				}
+				let tier = b[q];
+				let index = u64::from_le_bytes(b[q + 2..q + 10].try_into().unwrap());
+				q += 10;
+				if index == 0 {
+					q += 16
+				} else {
+					let hd = u16::from_le_bytes([b[q], b[q + 1]]);
+					q += 2;
+					if hd == 0xffff {
+						q += 8
+					} else if tier == 255 {
+						q += 4094
+					} else {
+						q += (hd & 0x7fff) as usize
+					}
+				}
+			},
+			5 | 7 => q += 2,
+			4 => break,
+			_ => return None,
+		}
+	}
+	let (ip, bits) = pos?;
+	if q + 4 > b.len() || bits < 16 || bits > 40 {
+		return None
+	}
+	let chunks = 1u64 << bits;
+	let bad = match rng.below(3) {
+		0 => chunks,
+		1 => chunks * rng.range(2, 63),
+		_ => chunks * 64 - 1,
+	};
+	b[ip..ip + 8].copy_from_slice(&bad.to_le_bytes());
+	let mut h = crc32fast::Hasher::new();
+	h.update(&b[..q]);
+	let c = h.finalize();
+	b[q..q + 4].copy_from_slice(&c.to_le_bytes());
+	Some(format!("chunk-index {bad} of a {bits}-bit index, checksum recomputed"))
 }
 
 pub fn main(args: &[String], kind: &str) -> i32 {
